@@ -47,7 +47,7 @@ def cases(draw):
         edges = [[i, j] for i in range(n) for j in range(i + 1, n)]
     elif shape == "nary":
         for _ in range(draw(st.integers(0, 6))):
-            k = draw(st.integers(1, min(4, n)))
+            k = draw(st.integers(0, min(4, n)))  # 0: a constant constraint (empty scope) belongs to no node
             edges.append(draw(st.lists(st.integers(0, n - 1), min_size=k, max_size=k, unique=True)))
     else:
         p = draw(st.sampled_from([0.1, 0.25, 0.5]))
